@@ -25,9 +25,9 @@ theorem C15_decode_wf (b : Bytes) (f : TBI) (h : decode b = some f) :
     f.description.length ≤ descBytes ∧ noEdgeNul f.description :=
   decode_props b f h
 
-/-- the full statement: every creatable schema (one name per type, type numbers and integer fields
-    in range) is written and read back unchanged -/
-def C15_full : Prop :=
+/-- BEFORE the repairs nothing was checked at creation: "every schema with one name per type, byte-sized
+    type numbers and 64-bit fields is written and read back unchanged" — false, see below -/
+def C15_unvalidated_roundtrip : Prop :=
   ∀ f : TBI, f.names.length = f.types.length → (∀ t ∈ f.types, t < 256) →
     f.version < 2 ^ 64 → f.year < 2 ^ 64 → f.timeframe < 2 ^ 64 → f.recordType < 2 ^ 64 → f.recordLength < 2 ^ 64 →
     ∃ b, encode f = some b ∧ decode b = some f
@@ -35,8 +35,8 @@ def C15_full : Prop :=
 def name33 : Str := List.replicate 33 65
 def longNameSchema : TBI := ⟨2, [68], 2020, 60000000000, 0, 16, [name33], [1]⟩
 
-/-- a 33-byte column name is accepted and comes back truncated (reproduced: DESIGN §7 F9) -/
-theorem C15_cex_longname : ¬ C15_full := by
+/-- (before the repair of C15-F9) a 33-byte column name is stored truncated -/
+theorem C15_before_repair_longname : ¬ C15_unvalidated_roundtrip := by
   intro h
   obtain ⟨b, _, hd⟩ := h longNameSchema rfl (by decide) (by decide) (by decide) (by decide) (by decide) (by decide)
   have := (C15_decode_wf b _ hd).2.1 name33 (by simp [longNameSchema])
@@ -44,10 +44,10 @@ theorem C15_cex_longname : ¬ C15_full := by
   decide
 
 /-- what is read back for the 33-byte name: its first 32 bytes -/
-theorem C15_cex_longname_truncated : trimNul (padTo nameBytes name33) = List.replicate 32 65 := by decide
+theorem C15_before_repair_longname_truncated : trimNul (padTo nameBytes name33) = List.replicate 32 65 := by decide
 
 /-- a name with a trailing (or leading) NUL comes back without it -/
-theorem C15_cex_edge_nul : ∀ b, decode b ≠ some ⟨2, [68], 2020, 60000000000, 0, 16, [[65, 0]], [1]⟩ := by
+theorem C15_before_repair_edge_nul : ∀ b, decode b ≠ some ⟨2, [68], 2020, 60000000000, 0, 16, [[65, 0]], [1]⟩ := by
   intro b hd
   have := (C15_decode_wf b _ hd).2.1 [65, 0] (by simp)
   revert this
@@ -55,7 +55,7 @@ theorem C15_cex_edge_nul : ∀ b, decode b ≠ some ⟨2, [68], 2020, 6000000000
 
 /-- more than 1024 columns: `Header.Load` indexes past the arrays (Go panic; the server leaves a
     0-byte year file behind, which is fatal at the first access after a restart) -/
-theorem C15_cex_too_many (f : TBI) (h : f.types.length > maxElems) : encode f = none := by
+theorem C15_before_repair_too_many (f : TBI) (h : f.types.length > maxElems) : encode f = none := by
   simp [encode, h]
 
 /-! ### writes into the header: the record of a 1D bucket dated January 1 (slot index 0) -/
@@ -112,9 +112,9 @@ theorem C15_jan1_safe (f : TBI) (hwf : WF f) (b : Bytes) (he : encode f = some b
       rw [decode_overwrite d w _ (by rw [hdl, headersize_eq]) hoff (by rw [hdn, hN, hmn, headersize_eq]; omega)]
       exact hdd
 
-/-- the January-1 record of a wide daily bucket overwrites the element types: after the write the
-    header no longer decodes to the schema (reproduced: corpus/C15/known_F1_jan1.ops) -/
-theorem C15_cex_jan1 : ∃ b, encode wide = some b ∧ junk.length ≤ wide.recordLength ∧
+/-- (before the repair of C15-F1; such a schema is refused now) the January-1 record of a wide daily
+    bucket overwrites the element types: after the write the header no longer decodes to the schema -/
+theorem C15_before_repair_jan1 : ∃ b, encode wide = some b ∧ junk.length ≤ wide.recordLength ∧
     decode (slot0Write wide.recordLength b junk) ≠ some wide := by
   obtain ⟨b, he, hl, _⟩ := header_roundtrip wide wide_wf
   refine ⟨b, he, by rw [junk_length, wide_recLen]; exact Nat.le_refl _, ?_⟩
@@ -135,14 +135,57 @@ theorem C15_cex_jan1 : ∃ b, encode wide = some b ∧ junk.length ≤ wide.reco
   | zero => rw [hn] at hh; simp at hh
   | succ n => rw [hn] at hh; simp at hh
 
-/-- the partial theorem: a well-formed schema is read back exactly, and stays so under any slot-0
-    writes that fit behind the used part of the type array -/
-theorem C15_partial (f : TBI) (hwf : WF f)
-    (hsafe : f.recordLength + f.types.length ≤ headersize - (312 + maxElems * nameBytes))
-    (ws : List Bytes) (hws : ∀ w ∈ ws, w.length ≤ f.recordLength) :
-    ∃ b, encode f = some b ∧ decode (ws.foldl (slot0Write f.recordLength) b) = some f := by
-  obtain ⟨b, he, _, _⟩ := header_roundtrip f hwf
-  exact ⟨b, he, C15_jan1_safe f hwf b he hsafe ws hws⟩
+set_option maxRecDepth 100000 in
+/-- the CURRENT source runs all three tests of `TimeBucketInfo.Validate` inside `AddTimeBucket` before
+    anything is created (regenerated skeletons; reverting a repair flips its flag, this `decide` fails
+    and the executable model follows the code) -/
+theorem C15_code_validates : codeFlags = ⟨true, true, true⟩ ∧ methodFlags = ⟨true, true, true⟩ := by decide
+
+/-- what creation accepts is well-formed -/
+theorem C15_accepted_wf (f : TBI) (hv : validSchema codeFlags f = true) (hb : Bounds f) : WF f := by
+  rw [C15_code_validates.1] at hv
+  exact validSchema_wf f hv hb
+
+/-- the full statement, for the code as it is now: every schema that bucket creation (Create or the
+    writer's auto-create) ACCEPTS is written and read back exactly, and — daily fixed-length buckets,
+    the only ones with a slot 0 — stays so under any number of January-1 writes; what cannot be
+    stored faithfully is refused (`validSchema` = false ⇒ `AddTimeBucket` returns the error first). -/
+theorem C15_full (f : TBI) (hv : validSchema codeFlags f = true) (hb : Bounds f) :
+    ∃ b, encode f = some b ∧ b.length = headersize ∧ decode b = some f ∧
+      (f.recordType = 0 → f.timeframe = dayNs → ∀ ws : List Bytes, (∀ w ∈ ws, w.length ≤ f.recordLength) →
+        decode (ws.foldl (slot0Write f.recordLength) b) = some f) := by
+  have hwf := C15_accepted_wf f hv hb
+  rw [C15_code_validates.1] at hv
+  obtain ⟨b, he, hl, hd⟩ := header_roundtrip f hwf
+  refine ⟨b, he, hl, hd, ?_⟩
+  intro h0 hday ws hws
+  exact C15_jan1_safe f hwf b he (validSchema_daily f hv h0 hday) ws hws
+
+/-- and the three refusals are exactly the three ways a schema can fail to be stored -/
+theorem C15_refused_iff (f : TBI) :
+    validSchema ⟨true, true, true⟩ f = false ↔
+      (f.types.length > maxElems ∨ (∃ s ∈ f.names, s.length > nameBytes ∨ trimNul s ≠ s) ∨
+       (f.recordType = 0 ∧ f.timeframe = dayNs ∧
+        ¬ (f.recordLength : Int) ≤ (headersize : Int) - typesOffset - f.types.length)) := by
+  simp only [validSchema, Bool.not_true, Bool.false_or, Bool.and_eq_false_iff, decide_eq_false_iff_not,
+    List.all_eq_false, Bool.and_eq_true, decide_eq_true_eq, beq_iff_eq, not_and, Bool.or_eq_false_iff,
+    Bool.not_eq_false', gt_iff_lt, Nat.not_le, ne_eq]
+  constructor
+  · rintro ((h | ⟨s, hs, h⟩) | ⟨⟨h1, h2⟩, h3⟩)
+    · exact Or.inl h
+    · refine Or.inr (Or.inl ⟨s, hs, ?_⟩)
+      by_cases hl : s.length ≤ nameBytes
+      · exact Or.inr (h hl)
+      · exact Or.inl (by omega)
+    · exact Or.inr (Or.inr ⟨h1, h2, h3⟩)
+  · rintro (h | ⟨s, hs, h⟩ | ⟨h1, h2, h3⟩)
+    · exact Or.inl (Or.inl h)
+    · refine Or.inl (Or.inr ⟨s, hs, ?_⟩)
+      intro hl
+      rcases h with h | h
+      · omega
+      · exact h
+    · exact Or.inr ⟨⟨h1, h2⟩, h3⟩
 
 /-! non-vacuity -/
 def ohlc : TBI := ⟨2, [68, 101, 102], 2020, 60000000000, 0, 24, [[79, 112, 101, 110], [67, 108, 111, 115, 101]], [0, 0]⟩
